@@ -16,6 +16,7 @@ import (
 	"runtime"
 	"slices"
 	"strings"
+	"sync"
 
 	"golang.org/x/tools/go/ssa"
 )
@@ -40,7 +41,8 @@ type frame struct {
 	caller           *frame
 	fn               *ssa.Function
 	block, prevBlock *ssa.BasicBlock
-	env              map[ssa.Value]value // dynamic values of SSA variables
+	env              []value // dynamic values of SSA variables, indexed by info.index
+	info             *funcInfo
 	locals           []value
 	defers           *deferred
 	result           value
@@ -81,8 +83,10 @@ func (fr *frame) get(key ssa.Value) value {
 	case *ssa.Global:
 		return fr.w.global(key)
 	}
-	if r, ok := fr.env[key]; ok {
-		return r
+	if i, ok := fr.info.index[key]; ok {
+		if r := fr.env[i]; r != nil || true {
+			return r
+		}
 	}
 	panic(fmt.Sprintf("get: no value for %T: %v", key, key.Name()))
 }
@@ -132,35 +136,35 @@ func visitInstr(fr *frame, instr ssa.Instruction) continuation {
 		// no-op
 
 	case *ssa.UnOp:
-		fr.env[instr] = w.unop(instr, fr.get(instr.X))
+		fr.env[fr.info.index[instr]] = w.unop(instr, fr.get(instr.X))
 
 	case *ssa.BinOp:
-		fr.env[instr] = w.binop(instr.Op, instr.X.Type(), fr.get(instr.X), fr.get(instr.Y))
+		fr.env[fr.info.index[instr]] = w.binop(instr.Op, instr.X.Type(), fr.get(instr.X), fr.get(instr.Y))
 
 	case *ssa.Call:
 		fn, args := prepareCall(fr, &instr.Call)
-		fr.env[instr] = w.call(fr, instr.Pos(), fn, args)
+		fr.env[fr.info.index[instr]] = w.call(fr, instr.Pos(), fn, args)
 
 	case *ssa.ChangeInterface:
-		fr.env[instr] = fr.get(instr.X)
+		fr.env[fr.info.index[instr]] = fr.get(instr.X)
 
 	case *ssa.ChangeType:
-		fr.env[instr] = fr.get(instr.X) // (can't fail)
+		fr.env[fr.info.index[instr]] = fr.get(instr.X) // (can't fail)
 
 	case *ssa.Convert:
-		fr.env[instr] = w.conv(instr.Type(), instr.X.Type(), fr.get(instr.X))
+		fr.env[fr.info.index[instr]] = w.conv(instr.Type(), instr.X.Type(), fr.get(instr.X))
 
 	case *ssa.SliceToArrayPointer:
-		fr.env[instr] = sliceToArrayPointer(instr.Type(), instr.X.Type(), fr.get(instr.X))
+		fr.env[fr.info.index[instr]] = sliceToArrayPointer(instr.Type(), instr.X.Type(), fr.get(instr.X))
 
 	case *ssa.MakeInterface:
-		fr.env[instr] = iface{t: instr.X.Type(), v: fr.get(instr.X)}
+		fr.env[fr.info.index[instr]] = iface{t: instr.X.Type(), v: fr.get(instr.X)}
 
 	case *ssa.Extract:
-		fr.env[instr] = fr.get(instr.Tuple).(tuple)[instr.Index]
+		fr.env[fr.info.index[instr]] = fr.get(instr.Tuple).(tuple)[instr.Index]
 
 	case *ssa.Slice:
-		fr.env[instr] = w.slice(fr.get(instr.X), fr.get(instr.Low), fr.get(instr.High), fr.get(instr.Max))
+		fr.env[fr.info.index[instr]] = w.slice(fr.get(instr.X), fr.get(instr.Low), fr.get(instr.High), fr.get(instr.Max))
 
 	case *ssa.Return:
 		switch len(instr.Results) {
@@ -239,17 +243,17 @@ func visitInstr(fr *frame, instr ssa.Instruction) continuation {
 		if !ok {
 			panic(targetPanicMsg("makechan: size out of range"))
 		}
-		fr.env[instr] = w.makeChan(int(n))
+		fr.env[fr.info.index[instr]] = w.makeChan(int(n))
 
 	case *ssa.Alloc:
 		var addr *value
 		if instr.Heap {
 			// new
 			addr = new(value)
-			fr.env[instr] = addr
+			fr.env[fr.info.index[instr]] = addr
 		} else {
 			// local
-			addr = fr.env[instr].(*value)
+			addr = fr.env[fr.info.index[instr]].(*value)
 		}
 		*addr = zero(mustDeref(instr.Type()))
 
@@ -267,26 +271,26 @@ func visitInstr(fr *frame, instr ssa.Instruction) continuation {
 		for i := range slice {
 			slice[i] = zero(tElt)
 		}
-		fr.env[instr] = slice[:lenv]
+		fr.env[fr.info.index[instr]] = slice[:lenv]
 
 	case *ssa.MakeMap:
-		fr.env[instr] = newOmap(instr.Type().Underlying().(*types.Map).Key())
+		fr.env[fr.info.index[instr]] = newOmap(instr.Type().Underlying().(*types.Map).Key())
 
 	case *ssa.Range:
-		fr.env[instr] = w.rangeIter(fr.get(instr.X))
+		fr.env[fr.info.index[instr]] = w.rangeIter(fr.get(instr.X))
 
 	case *ssa.Next:
-		fr.env[instr] = fr.get(instr.Iter).(iter).next(w)
+		fr.env[fr.info.index[instr]] = fr.get(instr.Iter).(iter).next(w)
 
 	case *ssa.FieldAddr:
 		p := fr.get(instr.X).(*value)
 		if p == nil {
 			panic(targetPanicMsg("runtime error: invalid memory address or nil pointer dereference"))
 		}
-		fr.env[instr] = &(*p).(structure)[instr.Field]
+		fr.env[fr.info.index[instr]] = &(*p).(structure)[instr.Field]
 
 	case *ssa.Field:
-		fr.env[instr] = fr.get(instr.X).(structure)[instr.Field]
+		fr.env[fr.info.index[instr]] = fr.get(instr.X).(structure)[instr.Field]
 
 	case *ssa.IndexAddr:
 		x := fr.get(instr.X)
@@ -297,7 +301,7 @@ func visitInstr(fr *frame, instr ssa.Instruction) continuation {
 			if !ok {
 				panic(targetPanicMsg(fmt.Sprintf("runtime error: index out of range with length %d", len(x))))
 			}
-			fr.env[instr] = &x[i]
+			fr.env[fr.info.index[instr]] = &x[i]
 		case *value: // *array
 			if x == nil {
 				panic(targetPanicMsg("runtime error: invalid memory address or nil pointer dereference"))
@@ -307,20 +311,20 @@ func visitInstr(fr *frame, instr ssa.Instruction) continuation {
 			if !ok {
 				panic(targetPanicMsg(fmt.Sprintf("runtime error: index out of range with length %d", len(a))))
 			}
-			fr.env[instr] = &a[i]
+			fr.env[fr.info.index[instr]] = &a[i]
 		default:
 			panic(fmt.Sprintf("unexpected x type in IndexAddr: %T", x))
 		}
 
 	case *ssa.Index:
-		fr.env[instr] = w.index(fr.get(instr.X), fr.get(instr.Index))
+		fr.env[fr.info.index[instr]] = w.index(fr.get(instr.X), fr.get(instr.Index))
 
 	case *ssa.Lookup:
 		x := fr.get(instr.X)
 		if isStringVal(x) {
-			fr.env[instr] = w.index(x, fr.get(instr.Index))
+			fr.env[fr.info.index[instr]] = w.index(x, fr.get(instr.Index))
 		} else {
-			fr.env[instr] = w.lookup(instr, x, fr.get(instr.Index))
+			fr.env[fr.info.index[instr]] = w.lookup(instr, x, fr.get(instr.Index))
 		}
 
 	case *ssa.MapUpdate:
@@ -338,20 +342,20 @@ func visitInstr(fr *frame, instr ssa.Instruction) continuation {
 		}
 
 	case *ssa.TypeAssert:
-		fr.env[instr] = typeAssert(instr, fr.get(instr.X).(iface))
+		fr.env[fr.info.index[instr]] = typeAssert(instr, fr.get(instr.X).(iface))
 
 	case *ssa.MakeClosure:
 		var bindings []value
 		for _, binding := range instr.Bindings {
 			bindings = append(bindings, fr.get(binding))
 		}
-		fr.env[instr] = &closure{instr.Fn.(*ssa.Function), bindings}
+		fr.env[fr.info.index[instr]] = &closure{instr.Fn.(*ssa.Function), bindings}
 
 	case *ssa.Phi:
 		panic("unreachable") // phis are processed at block entry
 
 	case *ssa.Select:
-		fr.env[instr] = w.doSelect(fr, instr)
+		fr.env[fr.info.index[instr]] = w.doSelect(fr, instr)
 
 	default:
 		panic(fmt.Sprintf("unexpected instruction: %T", instr))
@@ -511,18 +515,19 @@ func (w *world) callSSA(caller *frame, callpos token.Pos, fn *ssa.Function, args
 		caller: caller, // for panic/recover
 		fn:     fn,
 	}
-	fr.env = make(map[ssa.Value]value)
+	fr.info = getFuncInfo(fn)
+	fr.env = make([]value, fr.info.n)
 	fr.block = fn.Blocks[0]
 	fr.locals = make([]value, len(fn.Locals))
 	for i, l := range fn.Locals {
 		fr.locals[i] = zero(mustDeref(l.Type()))
-		fr.env[l] = &fr.locals[i]
+		fr.env[fr.info.index[l]] = &fr.locals[i]
 	}
 	for i, p := range fn.Params {
-		fr.env[p] = args[i]
+		fr.env[fr.info.index[p]] = args[i]
 	}
 	for i, fv := range fn.FreeVars {
-		fr.env[fv] = env[i]
+		fr.env[fr.info.index[fv]] = env[i]
 	}
 	for fr.block != nil {
 		runFrame(fr)
@@ -629,7 +634,7 @@ func executePhis(fr *frame) []ssa.Instruction {
 			fr.phitemps = append(fr.phitemps, fr.get(phi.Edges[predIndex]))
 		}
 		for i, phi := range phis {
-			fr.env[phi.(*ssa.Phi)] = fr.phitemps[i]
+			fr.env[fr.info.index[phi.(*ssa.Phi)]] = fr.phitemps[i]
 		}
 	}
 	return nonPhis
@@ -661,4 +666,51 @@ func doRecover(caller *frame) value {
 		}
 	}
 	return iface{}
+}
+
+// funcInfo numbers the SSA values of a function so that frames can keep them
+// in a slice.
+type funcInfo struct {
+	index map[ssa.Value]int
+	n     int
+}
+
+var funcInfos sync.Map // *ssa.Function -> *funcInfo
+
+func getFuncInfo(fn *ssa.Function) *funcInfo {
+	if fi, ok := funcInfos.Load(fn); ok {
+		return fi.(*funcInfo)
+	}
+	fi := &funcInfo{index: make(map[ssa.Value]int)}
+	add := func(v ssa.Value) {
+		if _, ok := fi.index[v]; !ok {
+			fi.index[v] = fi.n
+			fi.n++
+		}
+	}
+	for _, p := range fn.Params {
+		add(p)
+	}
+	for _, fv := range fn.FreeVars {
+		add(fv)
+	}
+	for _, l := range fn.Locals {
+		add(l)
+	}
+	for _, b := range fn.Blocks {
+		for _, in := range b.Instrs {
+			if v, ok := in.(ssa.Value); ok {
+				add(v)
+			}
+		}
+	}
+	if fn.Recover != nil {
+		for _, in := range fn.Recover.Instrs {
+			if v, ok := in.(ssa.Value); ok {
+				add(v)
+			}
+		}
+	}
+	act, _ := funcInfos.LoadOrStore(fn, fi)
+	return act.(*funcInfo)
 }
